@@ -52,3 +52,64 @@ def _meta_grid(j, conv):
 builder('$gridlist', _gridlist)
 builder('mapproxy.grid:TileGrid', _tile_grid)
 builder('mapproxy.grid:MetaGrid', _meta_grid)
+
+
+# ---- random instance generators (pyvc.fuzz) ------------------------------------------------------------------
+from pyvc.api import generator  # noqa
+
+
+def _real(fr):
+    from fractions import Fraction
+    fr = Fraction(fr)
+    return {'$real': '%d/%d' % (fr.numerator, fr.denominator)}
+
+
+def _gen_tile_grid(gen, rng):
+    """a reachable TileGrid: built by the real constructor from a random configuration"""
+    from fractions import Fraction
+    from mapproxy.grid import TileGrid
+    from mapproxy.srs import SRS
+    kind = rng.random()
+    if kind < 0.3:
+        bbox = (-20037508.342789244, -20037508.342789244, 20037508.342789244, 20037508.342789244)
+    elif kind < 0.5:
+        bbox = (-180.0, -90.0, 180.0, 90.0)
+    else:
+        x0 = rng.choice([0, -10, 5, 3.5, -1000.25, 400000])
+        y0 = rng.choice([0, -7, 2, 1.75, 5000000])
+        bbox = (x0, y0, x0 + rng.choice([10, 256, 1000, 1024.5, 77.7]), y0 + rng.choice([7, 256, 1000, 333.3, 512]))
+    ts = rng.choice([(256, 256), (256, 256), (512, 256), (256, 128), (2, 2), (3, 5), (1, 1)])
+    width = bbox[2] - bbox[0]
+    r0 = max(width / ts[0], (bbox[3] - bbox[1]) / ts[1]) * rng.choice([1, 1, 0.5, 1.3])
+    n = rng.randint(1, 6)
+    fac = rng.choice([2.0, 2.0, 1.4142135623730951, 1.5, 3.0])
+    res = [r0 / fac ** i for i in range(n)]
+    if rng.random() < 0.3:
+        res = sorted({float(rng.choice([1000, 500, 250, 100, 75, 12.5, 1, 0.375, 0.5])) for _ in range(n)}, reverse=True)
+    origin = rng.choice(['ll', 'ul', 'll', 'ul', 'sw', 'nw'])
+    g = TileGrid(srs=SRS(3857), bbox=bbox, tile_size=ts, res=list(res), origin=origin,
+                 stretch_factor=rng.choice([1.15, 1.0, 1.5]), max_shrink_factor=rng.choice([4.0, 2.0]))
+    return tile_grid_to_json(g)
+
+
+def tile_grid_to_json(g):
+    names = list(g.resolutions._names)
+    return {'$cls': 'mapproxy.grid:TileGrid',
+            'bbox': {'$tuple': [_real(v) for v in g.bbox]}, 'tile_size': {'$tuple': list(g.tile_size)},
+            'levels': g.levels,
+            'resolutions': {'$cls': '$gridlist', 'values': {'$tuple': [_real(g.resolutions[i]) for i in range(g.levels)]},
+                            'names': {'$tuple': names}},
+            'grid_sizes': {'$cls': '$gridlist', 'values': {'$tuple': [{'$tuple': list(g.grid_sizes[i])} for i in range(g.levels)]},
+                           'names': {'$tuple': names}},
+            'flipped_y_axis': g.flipped_y_axis, 'origin': g.origin, 'stretch_factor': _real(g.stretch_factor),
+            'max_shrink_factor': _real(g.max_shrink_factor), 'threshold_res': None, 'is_geodetic': False, 'name': None}
+
+
+def _gen_meta_grid(gen, rng):
+    return {'$cls': 'mapproxy.grid:MetaGrid', 'grid': _gen_tile_grid(gen, rng),
+            'meta_size': {'$tuple': list(rng.choice([(1, 1), (2, 2), (2, 2), (4, 4), (4, 2), (2, 3), (8, 8)]))},
+            'meta_buffer': rng.choice([0, 0, 10, 80, 200, 1])}
+
+
+generator('mapproxy.grid:TileGrid', _gen_tile_grid)
+generator('mapproxy.grid:MetaGrid', _gen_meta_grid)
